@@ -403,6 +403,13 @@ impl<'env> Context<'env> {
         let item = frame.current_loop.as_mut()?.next();
         if item.is_some() {
             frame.locals.clear();
+            // every iteration is a scope of its own: macros declared in this
+            // iteration must not see the values a previous iteration left
+            // behind in the closure of the frame.
+            #[cfg(feature = "macros")]
+            {
+                frame.closure = None;
+            }
         }
         item
     }
